@@ -86,6 +86,8 @@ def render_c06(case, c, seed):
         tgen_decl, twhere, targs = "<G>", " where G: ::core::fmt::Debug + Send + Sync + 'static", "<i32>"
     elif p["extra"] == "default-param":
         tgen_decl, twhere, targs = "<G = i32>", " where G: ::core::fmt::Debug + Send + Sync + 'static", "<i32>"
+    elif p["extra"] == "unsized-param":
+        tgen_decl, targs = "<K: ?Sized + Sync + 'static>", "<str>"
     elif p["extra"] == "lifetime-trait":
         # two lifetime parameters related by a where-predicate that the method needs
         tgen_decl, twhere, targs = "<'t, 'u>", " where 't: 'u", "<'static, 'static>"
@@ -115,6 +117,8 @@ def render_c06(case, c, seed):
         methods.append("    fn consume(self, x: i32) -> String;")
     if p["extra"] == "typed-receiver":
         methods.append(f"    {fnkw} tr(self: &Self, x: i32) -> String;")
+    if p["extra"] == "unsized-param":
+        methods.append(f"    {fnkw} uk(&self, k: &K) -> String;")
     if p["extra"] == "lifetime-trait":
         methods.append("    fn lt(&self, s: &'t str, _u: &'u str) -> &'u str;")
     trait_text = (f"#[::entrait::entrait({attr})]\n{at}pub trait Tr{tgen_decl}{sup}{twhere} {{\n" + "\n".join(methods) + "\n}\n")
@@ -142,6 +146,8 @@ def render_c06(case, c, seed):
             ms.append(f"    fn consume(self, x: i32) -> String {body}")
         if p["extra"] == "typed-receiver":
             ms.append(method("tr(self: &Self, x: i32)", f'format!("provider:{{}}::tr", {owner_expr})', ['format!("{:?}", x)']))
+        if p["extra"] == "unsized-param":
+            ms.append(method("uk(&self, k: &str)", f'format!("provider:{{}}::uk", {owner_expr})', ['k.to_string()']))
         if p["extra"] == "lifetime-trait":
             ms.append(f"""    fn lt(&self, s: &'static str, _u: &'static str) -> &'static str {{
         let __f: String = format!("provider:{{}}::lt", {owner_expr});
@@ -203,6 +209,8 @@ def render_c06(case, c, seed):
     if p["extra"] == "typed-receiver":
         v = rng.randint(1, 99)
         calls.append(("tr", [str(v)], [str(v)], is_async)); own["tr"] = "provider:Prov::tr"
+    if p["extra"] == "unsized-param":
+        calls.append(("uk", ['"key"'], ["key"], is_async)); own["uk"] = "provider:Prov::uk"
     if p["extra"] == "lifetime-trait":
         calls.append(("lt", ['"lifetime"', '"u"'], ["lifetime"], False)); own["lt"] = "provider:Prov::lt"
     depsmap = {m: "recv" for m in own}
@@ -265,7 +273,8 @@ def render_c07(case, c, seed):
     for k in range(1, nb + 1):
         body = logging_body(f'String::from("{case}::other{k}")', "::vt::addr(deps)", ['format!("{:?}", x)'], False)
         others.append(f"#[::entrait::entrait(pub Other{k})]\nfn other{k}<D>(deps: &D, x: i32) -> String {body}\n")
-    attr = "TrImpl, delegate_by = DelegateTr" if static else "TrImpl, delegate_by = ref"
+    borrow = p["kind"] == "dynborrow"
+    attr = "TrImpl, delegate_by = DelegateTr" if static else ("TrImpl, delegate_by = Borrow" if borrow else "TrImpl, delegate_by = ref")
     methods = [f"    {fnkw} m{i}(&self{sig_params}) -> String;" for i in range(1, p["nmeth"] + 1)]
     if p.get("typed"):
         methods = [m.replace("(&self", "(self: &Self") for m in methods]
@@ -314,6 +323,13 @@ def render_c07(case, c, seed):
             glue.append(f"impl DelegateTr<Self> for {a} {{ type Target = {tyname[x]}; }}")
         else:
             ref = {"X1": "&XP1", "X2": "&XP2"}[x] if generic_target else f"&{x}"
+            if borrow:
+                # selection through Borrow; the application ALSO hands out the OTHER target through AsRef (a decoy that must not be reached)
+                other = {"X1": "X2", "X2": "X1"}[x]
+                oref = {"X1": "&XP1", "X2": "&XP2"}[other] if generic_target else f"&{other}"
+                glue.append(f"impl ::core::borrow::Borrow<dyn TrImpl<Self>{sync}> for {a} {{ fn borrow(&self) -> &(dyn TrImpl<Self>{sync} + 'static) {{ {ref} }} }}")
+                glue.append(f"impl AsRef<dyn TrImpl<Self>{sync}> for {a} {{ fn as_ref(&self) -> &(dyn TrImpl<Self>{sync} + 'static) {{ {oref} }} }}")
+                continue
             glue.append(f"impl AsRef<dyn TrImpl<Self>{sync}> for {a} {{ fn as_ref(&self) -> &(dyn TrImpl<Self>{sync} + 'static) {{ {ref} }} }}")
     scs, descs = [], {}
     n = 0
